@@ -400,7 +400,9 @@ def r19e(ctx, run):
         it = SymInterp(
             funcs={"classify_arg": classify, "FnAbi::new": lambda i, a: Obj("FnAbi", args=[], ret=None),
                    "PassMode::cast": lambda i, a: Term("regs"), "PassMode::direct": lambda i, a: Term("direct"),
-                   "PassMode::indirect_by_val": lambda i, a: Term("memory"), "split_aggregate": lambda i, a: Term("split")},
+                   "PassMode::indirect_by_val": lambda i, a: Term("memory"), "split_aggregate": lambda i, a: Term("split"),
+                   # a bare pointer to the caller's own value: not a System V way to pass an argument (memory-class arguments are COPIED onto the stack)
+                   "PassMode::indirect": lambda i, a: Term("pointer-to-caller's-value")},
             methods={"is_zero_sized": lambda i, r, a: ret_cls == "void" if repr(r) == repr(ret) else False,
                      "is_aggregate": lambda i, r, a: tys[repr(r)][1], "get_final_ty": lambda i, r, a: r, "into_real_type": lambda i, r, a: r,
                      "stride": lambda i, r, a: 8, "size": lambda i, r, a: 8, "next_multiple_of": lambda i, r, a: r})
